@@ -23,6 +23,25 @@
 (*   ShutdownInline = TRUE is the pinned commit: ready() calls Shutdown()  *)
 (*   on its own goroutine, and Shutdown() ends with wg.Wait().             *)
 (*                                                                         *)
+(*   Second way into the same shutdown: consensus became ready but the     *)
+(*   consensus.Peers() call that follows fails.  PeersErrInline = TRUE is  *)
+(*   the design in which that branch calls Shutdown() on its own goroutine *)
+(*   as well.  A later Shutdown() by the user (it waits for shutdownLock)  *)
+(*   is part of the model.                                                 *)
+(*                                                                         *)
+(* Part D: Cluster.run() starts one pushInformerMetrics goroutine per      *)
+(*   informer from a range loop.  LoopVarShared = TRUE is the design in    *)
+(*   which the goroutines read the loop variable (one variable for all     *)
+(*   iterations: go.mod says go 1.16) instead of receiving their informer  *)
+(*   as an argument.                                                       *)
+(*                                                                         *)
+(* Part E: failure checks (Checker.failed -> Store.Distribution -> phi ->  *)
+(*   meanVariance) run under the store's READ lock, so several may run at  *)
+(*   once; meanVariance works IN PLACE on the slice it is given.           *)
+(*   DistShared = TRUE is the design in which Window.Distribution()        *)
+(*   memoises its result until the next Add() and hands the same slice to  *)
+(*   every caller; FALSE (the pinned commit) builds a fresh slice per call.*)
+(*                                                                         *)
 (* The tracker's operation table is modelled in Tracker.tla.               *)
 (***************************************************************************)
 EXTENDS Integers, Sequences, FiniteSets, TLC
@@ -33,17 +52,30 @@ CONSTANTS MaxAlerts,          \* reset threshold (code: 1000)
           SizedOutsideLock,
           ClientGuarded,
           ShutdownInline,
-          Part                \* "alerts" | "informer" | "lifecycle"
+          PeersErrInline,
+          NInformers,         \* part D: informers handed to NewCluster
+          LoopVarShared,
+          NCheckers,          \* part E: goroutines evaluating failure checks
+          NChecks,            \*         checks per goroutine
+          MaxVer,             \*         metrics added to the window during the scenario
+          DistShared,
+          Part                \* "alerts" | "informer" | "lifecycle" | "fanout" | "accrual"
 
 VARIABLES alerts, lock, rd, wr, nread, nwritten, results, panicked,   \* part A
           client, gm, sh, gres,                                       \* part B
-          wg, rg, sd, doneCh,                                         \* part C
+          wg, rg, sd, doneCh, isReady, bg, cancelled, slock, usr,     \* part C
+          li, lv, gr, pushed, lvrace,                                 \* part D
+          ver, cache, slices, ck, checks,                             \* part E
           act
 
 varsA == <<alerts, lock, rd, wr, nread, nwritten, results, panicked>>
 varsB == <<client, gm, sh, gres>>
-varsC == <<wg, rg, sd, doneCh>>
-vars  == <<alerts, lock, rd, wr, nread, nwritten, results, panicked, client, gm, sh, gres, wg, rg, sd, doneCh, act>>
+varsC == <<wg, rg, sd, doneCh, isReady, bg, cancelled, slock, usr>>
+varsD == <<li, lv, gr, pushed, lvrace>>
+varsE == <<ver, cache, slices, ck, checks>>
+vars  == <<alerts, lock, rd, wr, nread, nwritten, results, panicked, client, gm, sh, gres,
+           wg, rg, sd, doneCh, isReady, bg, cancelled, slock, usr,
+           li, lv, gr, pushed, lvrace, ver, cache, slices, ck, checks, act>>
 
 Reverse(s) == [i \in 1..Len(s) |-> s[Len(s) + 1 - i]]
 Zeros(n)   == [i \in 1..n |-> 0]
@@ -55,6 +87,12 @@ Init ==
     /\ nread = 0 /\ nwritten = 0 /\ results = <<>> /\ panicked = FALSE
     /\ client = "set" /\ gm = "idle" /\ sh = "idle" /\ gres = "none"
     /\ wg = 1 /\ rg = "waiting" /\ sd = "idle" /\ doneCh = FALSE
+    /\ isReady = FALSE /\ bg = "none" /\ cancelled = FALSE /\ slock = "free" /\ usr = "idle"
+    /\ li = 1 /\ lv = 0 /\ gr = [k \in 1..NInformers |-> [pc |-> "none", arg |-> 0, inf |-> 0]]
+    /\ pushed = {} /\ lvrace = FALSE
+    /\ ver = 1 /\ cache = 0 /\ slices = <<>>
+    /\ ck = [t \in 1..NCheckers |-> [pc |-> "idle", n |-> 0, v0 |-> 0, s |-> 0, from |-> <<>>]]
+    /\ checks = {}
     /\ act = [name |-> "Init"]
 
 (***************************************************************************)
@@ -103,7 +141,7 @@ WAppendUnlock ==
     /\ act' = [name |-> "WAppendUnlock", t |-> "writer"]
     /\ UNCHANGED <<rd, nread, results, panicked>>
 
-NextA == (RSize \/ RLock \/ RCopyUnlock \/ WLock \/ WAppendUnlock) /\ UNCHANGED varsB /\ UNCHANGED varsC
+NextA == (RSize \/ RLock \/ RCopyUnlock \/ WLock \/ WAppendUnlock) /\ UNCHANGED <<varsB, varsC, varsD, varsE>>
 
 \* --- properties (C18: no panic, no torn result) ---
 NoIndexPanic == ~panicked
@@ -139,57 +177,245 @@ SNil ==
     /\ act' = [name |-> "SNil", t |-> "shut"]
     /\ UNCHANGED <<gm, gres>>
 
-NextB == (GCheck \/ GUse \/ SNil) /\ UNCHANGED varsA /\ UNCHANGED varsC
+NextB == (GCheck \/ GUse \/ SNil) /\ UNCHANGED <<varsA, varsC, varsD, varsE>>
 
 (***************************************************************************)
 (* Part C                                                                  *)
-(* rg : the goroutine of NewCluster that runs ready() then run(); it is    *)
-(*      counted in wg (wg.Add(1) ... defer wg.Done()).                     *)
-(* sd : the thread executing Shutdown(): stops components, cancels, then   *)
-(*      wg.Wait(), then closes doneCh.                                     *)
+(* rg  : the goroutine of NewCluster that runs ready() then run(); it is   *)
+(*       counted in wg (wg.Add(1) ... defer wg.Done()).                    *)
+(* sd  : the Shutdown() that ready() triggers when start-up fails (on rg   *)
+(*       itself when inline, else on a goroutine of its own).              *)
+(* usr : a Shutdown() call by the user, at any time.                       *)
+(* Shutdown(): take shutdownLock; return if already shut down; stop the    *)
+(*       components; cancel the context; wg.Wait(); close doneCh; unlock.  *)
+(* bg  : the long-lived goroutines started by run() (counted in wg, they   *)
+(*       end when the context is cancelled).                               *)
 (***************************************************************************)
+\* ready() decided to shut the peer down; inline = on the goroutine that runs ready()
+TriggerShutdown(inline) ==
+    /\ sd' = "lockwait"
+    /\ rg' = IF inline THEN "inshutdown" ELSE "returning"
+
 \* ReadyTimeout fires
 CTimeout ==
     /\ rg = "waiting"
-    /\ IF ShutdownInline
-         THEN rg' = "inshutdown" /\ sd' = "stopping"         \* Shutdown() runs on rg itself
-         ELSE rg' = "returning" /\ sd' = "stopping"          \* go Shutdown(); ready() returns
+    /\ TriggerShutdown(ShutdownInline)
     /\ act' = [name |-> "CTimeout", t |-> "ready"]
-    /\ UNCHANGED <<wg, doneCh>>
+    /\ UNCHANGED <<wg, doneCh, isReady, bg, cancelled, slock, usr>>
+
+\* consensus.Ready() fires: RecoverAllLocal, then consensus.Peers()
+CConsReady ==
+    /\ rg = "waiting"
+    /\ rg' = "peers"
+    /\ act' = [name |-> "CConsReady", t |-> "ready"]
+    /\ UNCHANGED <<wg, sd, doneCh, isReady, bg, cancelled, slock, usr>>
+
+\* the context was cancelled (a user Shutdown) while waiting for consensus
+CCtxDone ==
+    /\ rg = "waiting" /\ cancelled
+    /\ rg' = "returning"
+    /\ act' = [name |-> "CCtxDone", t |-> "ready"]
+    /\ UNCHANGED <<wg, sd, doneCh, isReady, bg, cancelled, slock, usr>>
+
+\* consensus.Peers() fails right after consensus became ready
+CPeersErr ==
+    /\ rg = "peers"
+    /\ TriggerShutdown(PeersErrInline)
+    /\ act' = [name |-> "CPeersErr", t |-> "ready"]
+    /\ UNCHANGED <<wg, doneCh, isReady, bg, cancelled, slock, usr>>
+
+\* consensus.Peers() answers: readyCh is closed, run() starts the long-lived goroutines
+CPeersOk ==
+    /\ rg = "peers"
+    /\ isReady' = TRUE /\ rg' = "returning"
+    /\ bg' = "running" /\ wg' = wg + 1
+    /\ act' = [name |-> "CPeersOk", t |-> "ready"]
+    /\ UNCHANGED <<sd, doneCh, cancelled, slock, usr>>
+
+\* the long-lived goroutines end once the context is cancelled
+CBgExit ==
+    /\ bg = "running" /\ cancelled
+    /\ bg' = "gone" /\ wg' = wg - 1
+    /\ act' = [name |-> "CBgExit", t |-> "bg"]
+    /\ UNCHANGED <<rg, sd, doneCh, isReady, cancelled, slock, usr>>
 
 \* the ready goroutine returns: deferred wg.Done()
 CReturn ==
     /\ rg = "returning"
     /\ rg' = "gone" /\ wg' = wg - 1
     /\ act' = [name |-> "CReturn", t |-> "ready"]
-    /\ UNCHANGED <<sd, doneCh>>
+    /\ UNCHANGED <<sd, doneCh, isReady, bg, cancelled, slock, usr>>
 
-\* Shutdown: components stopped, context cancelled, now waiting for the goroutines
+\* a user calls Shutdown()
+CUserCall ==
+    /\ usr = "idle"
+    /\ usr' = "lockwait"
+    /\ act' = [name |-> "CUserCall", t |-> "user"]
+    /\ UNCHANGED <<wg, rg, sd, doneCh, isReady, bg, cancelled, slock>>
+
+\* Shutdown() steps of caller c ("sd" = triggered by ready(), "usr" = the user); pc/pc2 are its program counter
+\* shutdownLock.Lock(); if shutdownB { return }
+SLock(c, pc, pc2) ==
+    /\ pc = "lockwait" /\ slock = "free"
+    /\ IF doneCh THEN pc2 = "returned" /\ slock' = slock
+                 ELSE pc2 = "stopping" /\ slock' = c
+\* components stopped, c.cancel(), now wg.Wait()
+SStopped(c, pc, pc2) ==
+    /\ pc = "stopping"
+    /\ pc2 = "wgwait" /\ cancelled' = TRUE
+\* wg.Wait() returns only when every registered goroutine has finished; close(doneCh); unlock
+SWaitDone(c, pc, pc2) ==
+    /\ pc = "wgwait" /\ wg = 0
+    /\ pc2 = "returned" /\ doneCh' = TRUE /\ slock' = "free"
+
+CAutoLock ==
+    /\ SLock("sd", sd, sd')
+    \* an inline Shutdown() that found the peer already stopped gives the goroutine back to ready()
+    /\ rg' = IF sd' = "returned" /\ rg = "inshutdown" THEN "returning" ELSE rg
+    /\ act' = [name |-> "CAutoLock", t |-> "shutdown"]
+    /\ UNCHANGED <<wg, doneCh, isReady, bg, cancelled, usr>>
 CStopped ==
-    /\ sd = "stopping"
-    /\ sd' = "wgwait"
+    /\ SStopped("sd", sd, sd')
     /\ act' = [name |-> "CStopped", t |-> "shutdown"]
-    /\ UNCHANGED <<wg, rg, doneCh>>
-
-\* wg.Wait() returns only when every registered goroutine has finished
+    /\ UNCHANGED <<wg, rg, doneCh, isReady, bg, slock, usr>>
 CWaitDone ==
-    /\ sd = "wgwait" /\ wg = 0
-    /\ sd' = "done" /\ doneCh' = TRUE
+    /\ SWaitDone("sd", sd, sd')
     /\ rg' = IF rg = "inshutdown" THEN "returning" ELSE rg
     /\ act' = [name |-> "CWaitDone", t |-> "shutdown"]
-    /\ UNCHANGED wg
+    /\ UNCHANGED <<wg, isReady, bg, cancelled, usr>>
+CUserLock ==
+    /\ SLock("usr", usr, usr')
+    /\ act' = [name |-> "CUserLock", t |-> "user"]
+    /\ UNCHANGED <<wg, rg, sd, doneCh, isReady, bg, cancelled>>
+CUserStopped ==
+    /\ SStopped("usr", usr, usr')
+    /\ act' = [name |-> "CUserStopped", t |-> "user"]
+    /\ UNCHANGED <<wg, rg, sd, doneCh, isReady, bg, slock>>
+CUserWaitDone ==
+    /\ SWaitDone("usr", usr, usr')
+    /\ act' = [name |-> "CUserWaitDone", t |-> "user"]
+    /\ UNCHANGED <<wg, rg, sd, isReady, bg, cancelled>>
 
-NextC == (CTimeout \/ CReturn \/ CStopped \/ CWaitDone) /\ UNCHANGED varsA /\ UNCHANGED varsB
+NextC == (CTimeout \/ CConsReady \/ CCtxDone \/ CPeersErr \/ CPeersOk \/ CBgExit \/ CReturn \/ CUserCall
+          \/ CAutoLock \/ CStopped \/ CWaitDone \/ CUserLock \/ CUserStopped \/ CUserWaitDone)
+         /\ UNCHANGED <<varsA, varsB, varsD, varsE>>
 
+\* --- properties (C18: no deadlock) ---
 \* no goroutine waits for itself: Shutdown's wg.Wait() must not run on a goroutine counted in wg
 NoSelfWait == ~(sd = "wgwait" /\ rg = "inshutdown")
-\* the peer really stops
+\* the peer really stops, and a Shutdown() call by the user returns
 LifeSpec == Init /\ [][NextC]_vars /\ WF_vars(NextC)
 EventuallyStopped == <>doneCh
+UserShutdownReturns == <>(usr = "returned")
+
+(***************************************************************************)
+(* Part D                                                                  *)
+(*   for _, informer := range c.informers { go func(...){ push(informer) } *)
+(* li : the iteration about to run; lv : the loop variable (ONE variable   *)
+(* for the whole loop); gr[k] : the goroutine started by iteration k, with *)
+(* the argument copy it was given (arg) and the informer it ends up        *)
+(* pushing (inf).  pushInformerMetrics publishes at once (timer 0) and     *)
+(* then for ever the same informer.                                        *)
+(***************************************************************************)
+Informers == 1..NInformers
+
+\* iteration li: assign the loop variable, start the goroutine (the copy is made here)
+DIter ==
+    /\ li <= NInformers
+    /\ lv' = li /\ li' = li + 1
+    /\ gr' = [gr EXCEPT ![li] = [pc |-> "spawned", arg |-> li, inf |-> 0]]
+    /\ act' = [name |-> "DIter", t |-> "run"]
+    /\ UNCHANGED <<pushed, lvrace>>
+
+\* goroutine k evaluates the informer it will push: its argument, or the loop variable as it is now
+DStart(k) ==
+    /\ gr[k].pc = "spawned"
+    /\ gr' = [gr EXCEPT ![k] = [@ EXCEPT !.pc = "pushing", !.inf = IF LoopVarShared THEN lv ELSE gr[k].arg]]
+    \* the read of the shared variable is not ordered with the writes of the later iterations
+    /\ lvrace' = (lvrace \/ (LoopVarShared /\ k < NInformers))
+    /\ act' = [name |-> "DStart", t |-> "push", k |-> k]
+    /\ UNCHANGED <<li, lv, pushed>>
+
+DPush(k) ==
+    /\ gr[k].pc = "pushing"
+    /\ pushed' = pushed \cup {gr[k].inf}
+    /\ gr' = [gr EXCEPT ![k] = [@ EXCEPT !.pc = "pushed"]]
+    /\ act' = [name |-> "DPush", t |-> "push", k |-> k]
+    /\ UNCHANGED <<li, lv, lvrace>>
+
+NextD == (DIter \/ \E k \in Informers : DStart(k) \/ DPush(k)) /\ UNCHANGED <<varsA, varsB, varsC, varsE>>
+
+\* --- properties (C18: no race, no torn result) ---
+NoLoopVarRace == ~lvrace
+\* once every goroutine has published, every configured informer's metric has been published
+EveryInformerPushed == (\A k \in Informers : gr[k].pc = "pushed") => pushed = Informers
+
+(***************************************************************************)
+(* Part E                                                                  *)
+(* ver    : the window's version (number of Add() so far)                  *)
+(* slices : the []float64 values handed out by Distribution(); a slice     *)
+(*          holds <<"delta", v>> (the inter-arrival times of version v) or *)
+(*          <<"scratch">> (overwritten by meanVariance)                    *)
+(* cache  : the memoised slice (0 = none)                                  *)
+(* ck[t]  : checker goroutine t: idle -> dist -> mean -> inplace -> idle   *)
+(* checks : finished checks [v0, v1, from]: window versions at start and   *)
+(*          end, and what the verdict was computed from                    *)
+(* All checker steps run under the store's read lock, i.e. concurrently.   *)
+(***************************************************************************)
+Checkers == 1..NCheckers
+
+\* Window.Add: a new metric; the memo is dropped
+EAdd ==
+    /\ ver < MaxVer
+    /\ ver' = ver + 1 /\ cache' = 0
+    /\ act' = [name |-> "EAdd", t |-> "logmetric"]
+    /\ UNCHANGED <<slices, ck, checks>>
+
+\* failed(): latest metric expired, enough metrics: dv := Distribution()
+EDist(t) ==
+    /\ ck[t].pc = "idle" /\ ck[t].n < NChecks
+    /\ IF DistShared /\ cache # 0
+         THEN /\ ck' = [ck EXCEPT ![t] = [@ EXCEPT !.pc = "dist", !.v0 = ver, !.s = cache]]
+              /\ UNCHANGED <<slices, cache>>
+         ELSE /\ slices' = Append(slices, <<"delta", ver>>)
+              /\ ck' = [ck EXCEPT ![t] = [@ EXCEPT !.pc = "dist", !.v0 = ver, !.s = Len(slices) + 1]]
+              /\ cache' = IF DistShared THEN Len(slices) + 1 ELSE cache
+    /\ act' = [name |-> "EDist", t |-> "check", k |-> t]
+    /\ UNCHANGED <<ver, checks>>
+
+\* meanVariance: m = Sum(values)/n  -- reads the slice
+EMean(t) ==
+    /\ ck[t].pc = "dist"
+    /\ ck' = [ck EXCEPT ![t] = [@ EXCEPT !.pc = "mean", !.from = slices[ck[t].s]]]
+    /\ act' = [name |-> "EMean", t |-> "check", k |-> t]
+    /\ UNCHANGED <<ver, cache, slices, checks>>
+
+\* meanVariance: AddConst(-m, values); Mul(values, values)  -- overwrites the slice; then the verdict
+EInPlace(t) ==
+    /\ ck[t].pc = "mean"
+    /\ slices' = [slices EXCEPT ![ck[t].s] = <<"scratch">>]
+    /\ checks' = checks \cup {[v0 |-> ck[t].v0, v1 |-> ver, from |-> ck[t].from]}
+    /\ ck' = [ck EXCEPT ![t] = [pc |-> "idle", n |-> @.n + 1, v0 |-> 0, s |-> 0, from |-> <<>>]]
+    /\ act' = [name |-> "EInPlace", t |-> "check", k |-> t]
+    /\ UNCHANGED <<ver, cache>>
+
+NextE == (EAdd \/ \E t \in Checkers : EDist(t) \/ EMean(t) \/ EInPlace(t)) /\ UNCHANGED <<varsA, varsB, varsC, varsD>>
+
+\* --- properties (C18: no race, no torn result) ---
+\* a slice that is overwritten in place belongs to one checker: nobody else holds it, and it is not the memo
+Holds(t) == ck[t].pc \in {"dist", "mean"}
+ScratchIsPrivate ==
+    /\ \A t1, t2 \in Checkers : (t1 # t2 /\ Holds(t1) /\ Holds(t2)) => ck[t1].s # ck[t2].s
+    /\ \A t \in Checkers : Holds(t) => ck[t].s # cache
+\* the verdict of a failure check depends on the window contents only: it was computed from the inter-arrival
+\* times of a version the window had during the check (hence all checks of an unchanged window agree)
+VerdictFromWindow ==
+    \A c \in checks : \E v \in c.v0..c.v1 : c.from = <<"delta", v>>
 
 NoNilUse == gres # "nilpanic"
 
-Next == CASE Part = "alerts" -> NextA [] Part = "informer" -> NextB [] OTHER -> NextC
+Next == CASE Part = "alerts" -> NextA [] Part = "informer" -> NextB [] Part = "fanout" -> NextD
+          [] Part = "accrual" -> NextE [] OTHER -> NextC
 Spec == Init /\ [][Next]_vars
 
 \* negated reachability goals (witness generation)
